@@ -1135,13 +1135,21 @@ class _Streamer(mcasm.Streamer):
         data: bytes,
         fixups: List[mcasm.mc.Fixup],
     ) -> None:
+        # The operand of an indirect call or branch is a memory or register
+        # operand, not a branch target.
+        is_direct_transfer = (
+            inst.desc.is_call or inst.desc.is_branch
+        ) and not (
+            inst.desc.is_indirect_branch
+            or _is_indirect_call(self._state.target.isa, inst)
+        )
         for fixup in fixups:
             pos = len(self._state.current_section.data) + fixup.offset
             self._state.current_section.symbolic_expressions[pos] = (
                 self._fixup_to_symbolic_operand(
                     fixup,
                     data,
-                    inst.desc.is_call or inst.desc.is_branch,
+                    is_direct_transfer,
                     state.loc,
                 )
             )
